@@ -605,6 +605,21 @@ const vreYang2 = `module vrpresence {
       }
     }
   }
+  container mk {
+    container settings { leaf mode { type string; } }
+    list area {
+      key "id zone";
+      leaf id { type string; }
+      leaf zone { type string; }
+      leaf cost { type uint32; must "../../settings/mode = 'manual'"; }
+      container timers { leaf hello { type uint32; must "../../../settings/mode = 'manual'"; } }
+    }
+    list one {
+      key "id";
+      leaf id { type string; }
+      leaf cost { type uint32; must "../../settings/mode = 'manual'"; }
+    }
+  }
   container dr {
     leaf on { type string; }
     leaf target { type string; }
@@ -1293,6 +1308,12 @@ func TestVerifReplaySchema2Validation(t *testing.T) {
 		{"mandatory choice with the other case filled", []string{"(*tree.sharedEntryAttributes).validateMandatory", "(*tree.sharedEntryAttributes).validateMandatoryWithKeys"}, []pv{{[]string{"cons", "mc", "x2"}, str("x")}}, true, ""},
 		{"mandatory choice with no case filled", []string{"(*tree.sharedEntryAttributes).validateMandatory", "(*tree.sharedEntryAttributes).validateMandatoryWithKeys"}, []pv{{[]string{"cons", "mc", "other"}, str("o")}}, false, ""},
 		{"mandatory leaf of the chosen case missing", nil, []pv{{[]string{"cons", "mcase", "y2"}, str("y")}}, false, "mandatory_leaf_in_a_case_is_enforced"},
+		// a must whose path leaves a list entry: '..' from the key levels steps over all of them, whatever the number of keys
+		{"must '../../settings/mode' below an entry with two keys, satisfied", []string{"(*tree.yangParserEntryAdapter).Navigate"}, []pv{{[]string{"mk", "settings", "mode"}, str("manual")}, {[]string{"mk", "area", "a", "z", "id"}, str("a")}, {[]string{"mk", "area", "a", "z", "zone"}, str("z")}, {[]string{"mk", "area", "a", "z", "cost"}, u(5)}}, true, ""},
+		{"must '../../settings/mode' below an entry with two keys, violated", []string{"(*tree.yangParserEntryAdapter).Navigate"}, []pv{{[]string{"mk", "settings", "mode"}, str("auto")}, {[]string{"mk", "area", "a", "z", "id"}, str("a")}, {[]string{"mk", "area", "a", "z", "zone"}, str("z")}, {[]string{"mk", "area", "a", "z", "cost"}, u(5)}}, false, ""},
+		{"must '../../../settings/mode' from a container of an entry with two keys, satisfied", []string{"(*tree.yangParserEntryAdapter).Navigate"}, []pv{{[]string{"mk", "settings", "mode"}, str("manual")}, {[]string{"mk", "area", "a", "z", "id"}, str("a")}, {[]string{"mk", "area", "a", "z", "zone"}, str("z")}, {[]string{"mk", "area", "a", "z", "timers", "hello"}, u(5)}}, true, ""},
+		{"must '../../settings/mode' below an entry with one key, satisfied", []string{"(*tree.yangParserEntryAdapter).Navigate"}, []pv{{[]string{"mk", "settings", "mode"}, str("manual")}, {[]string{"mk", "one", "a", "id"}, str("a")}, {[]string{"mk", "one", "a", "cost"}, u(5)}}, true, ""},
+		{"must '../../settings/mode' below an entry with one key, violated", []string{"(*tree.yangParserEntryAdapter).Navigate"}, []pv{{[]string{"mk", "settings", "mode"}, str("auto")}, {[]string{"mk", "one", "a", "id"}, str("a")}, {[]string{"mk", "one", "a", "cost"}, u(5)}}, false, ""},
 		{"must '. > 5' on a uint32 of 10", nil, []pv{{[]string{"val", "usize"}, u(10)}}, true, ""},
 		{"must '. > 5' on a uint32 of 3", nil, []pv{{[]string{"val", "usize"}, u(3)}}, false, ""},
 		{"must '. > 5' on an int32 of 10", []string{"(*tree.yangParserEntryAdapter).valueToDatum"}, []pv{{[]string{"val", "size"}, i(10)}}, true, ""},
